@@ -47,6 +47,10 @@ async def scenario(sc: dict) -> WorkerRun:
     await run.run_worker(limit=sc["M"], tasks_limit=sc["tasks_limit"], horizon_s=sc["horizon_s"], signals=False)
     for _ in range(5):
         await asyncio.sleep(0)
+    if sc.get("broker") == "rabbit":
+        # a delivery that reached the RabbitMQ consumer while it was paused / stopping is rejected by its callback after
+        # the consumer's own 0.1 s pause (and every unacknowledged delivery returns when the channel closes)
+        await asyncio.sleep(0.3)
     run.final = {q: run.msg_params(q) for q in set(sc["actors"].values())}
     return run
 
@@ -134,6 +138,15 @@ def run(ctx) -> Result:
         sc = make_scenario(rng)
         r = vtime.run(lambda loop, s=sc: scenario(s), budget=80_000_000)
         check(r, model, res, f"run-{seed}-{i}")
+    # the same on the Redis and RabbitMQ brokers (in-process fake servers; prefetching consumers)
+    for kind in ("redis", "rabbit"):
+        for i in range(24 if deep else (10 if kind == "redis" else 4)):
+            rng = Rng(seed, f"c10/{kind}/{i}")
+            sc = make_scenario(rng)
+            sc["broker"], sc["consumer_latency_us"] = kind, 0
+            r = vtime.run(lambda loop, s=sc: scenario(s), budget=300_000_000)
+            check(r, model, res, f"run-{kind}-{seed}-{i}")
+            res.dist[f"broker:{kind}"] += 1
     for backlog in (0, 1, 3):
         for dur in (0, 200_000):
             o = vtime.run(lambda loop, b=backlog, d=dur: run_on_enqueue(b, d), budget=20_000_000)
